@@ -93,6 +93,28 @@ Definition zput (k : key) (e : entry) (z : zone) : zone := (k, e) :: zremove k z
 
 Definition name_of_key (k : key) : Z := let '(n, _, _) := k in n.
 
+(* dns/node.py NodeKind.classify(rdtype, covers): 2 = CNAME (CNAME, RRSIG(CNAME)),
+   1 = NEUTRAL (NSEC, NSEC3, KEY and their RRSIGs), 0 = REGULAR *)
+Definition kind_of (t cv : Z) : Z :=
+  let neutral x := (x =? 47) || (x =? 50) || (x =? 25) in
+  if (t =? 5) || ((t =? 46) && (cv =? 5)) then 2
+  else if neutral t || ((t =? 46) && neutral cv) then 1
+  else 0.
+
+Definition key_kind (k : key) : Z := let '(_, t, cv) := k in kind_of t cv.
+
+(* Node._append_rdataset: storing a CNAME-kind rdataset drops the REGULAR rdatasets of that node, storing a
+   REGULAR one drops the CNAME-kind ones ("the most recent change wins"); NEUTRAL ones coexist with both *)
+Definition conflicts (k k' : key) : bool :=
+  (name_of_key k =? name_of_key k') &&
+  (((key_kind k =? 2) && (key_kind k' =? 0)) || ((key_kind k =? 0) && (key_kind k' =? 2))).
+
+Definition node_clean (k : key) (z : zone) : zone :=
+  filter (fun ke => negb (conflicts k (fst ke))) z.
+
+(* Version._put_rdataset -> Node.replace_rdataset: delete the old rdataset, then _append_rdataset *)
+Definition node_put (k : key) (e : entry) (z : zone) : zone := zput k e (node_clean k z).
+
 (* ---- records and RRsets ---- *)
 Record rr := mkRR { r_name : Z; r_class : Z; r_type : Z; r_covers : Z; r_ttl : Z; r_data : Z }.
 Record rrset := mkRS { s_name : Z; s_class : Z; s_type : Z; s_covers : Z; s_ttl : Z; s_data : list Z }.
@@ -169,7 +191,7 @@ Definition t_add (replace : bool) (z : zone) (s : rrset) : res zone :=
                     fold_left (fun acc x => rds_add (s_type s) x acc) (s_data s) erds)
                | None => (s_ttl s, s_data s)
                end in
-        Ok (zput k e z)
+        Ok (node_put k e z)
   end.
 
 (* Transaction._delete(exact=True, (name, rrset)) *)
@@ -187,7 +209,7 @@ Definition t_delete_exact (z : zone) (s : rrset) : res zone :=
             else
               match diff erds (s_data s) with
               | [] => Ok (zremove k z)
-              | rest => Ok (zput k (ettl, rest) z)
+              | rest => Ok (node_put k (ettl, rest) z)
               end
         end
   end.
